@@ -25,12 +25,15 @@ def handle (j : Json) : Json :=
   match jstr j "op" with
   | "float" =>
     let ndv := parseRat (jstr j "ndv")
-    let xs := (jstrs j "xs").map parseFlt
+    let xs0 := (jstrs j "xs").map parseFlt
+    let xs := match j.getObjVal? "n" with | .ok n => padTo Flt.nan (asNat n) xs0 | _ => xs0
     Json.mkObj [("stored", ofStrs (xs.map fun x => showFlt (encF ndv x))),
                 ("read", ofStrs (xs.map fun x => showFlt (decF ndv (encF ndv x))))]
   | "int" =>
     let c := jbool j "checked"
-    ofStrs ((jstrs j "xs").map fun s => match encI c (parseNum s) with
+    let xs0 := (jstrs j "xs").map parseNum
+    let xs := match j.getObjVal? "n" with | .ok n => padTo NumIn.nan (asNat n) xs0 | _ => xs0
+    ofStrs (xs.map fun x => match encI c x with
       | .ok v => s!"{v}"
       | .error e => errStr e)
   | "bool" =>
